@@ -65,6 +65,12 @@ for sid, src, prop, needs, remark in SEEDS:
     own_caught = any(r['exit'] == 1 and r['violations'] > 0 for r in own)
     own_missed_first = any(r['exit'] != 1 for r in own)
     cm = re.search(r'^%s: demo clean rc=(\d+), patched rc=(\d+); baseline with patch: (.*)$' % re.escape(sdir), confirm, re.M)
+    if not cm or cm.group(1) != '0' or cm.group(2) == '0' or '70 of 70' not in cm.group(3):
+        # not (yet) confirmed by the coordinator: not kept
+        import shutil
+        shutil.rmtree(os.path.join(ROOT, 'seeded', sid), ignore_errors=True)
+        print(sid, 'NOT KEPT (no complete confirmation)')
+        continue
     meta = {
         'property': prop, 'author': 'independent sub-agent (%s) that saw only the property text' % src.split('/')[0],
         'needs': needs,
